@@ -6813,6 +6813,8 @@ def subn(
         while True:  # for `loop`
             if callback:
                 if callback(matched):
+                    loop = loop_start  # the next match gets the full `loop` budget again
+
                     break
 
             repl_ = repl.copy()  # this is duplication of repl template so no options needed
